@@ -274,6 +274,9 @@ def tag_rules(rep, prog, cfg):
               "two Tag variants share a protocol name (case-folded)")
     rep.check(len(ptab) == len(named), rule, cfg + "/try_from complete", t.loc(t.span),
               "try_from knows %d names, as_str names %d variants" % (len(ptab), len(named)))
+    tr = tables.transformed_compares(t)
+    rep.check(not tr, rule, cfg + "/try_from compares the received name", t.loc(t.span),
+              "the tag name is transformed before it is matched: %s" % sorted({x for v in tr.values() for x in v}))
     fallback_verbatim(rep, rule, cfg + "/try_from", t, "tag::Tag", "Other", 1)
     rep.sample({"tag_as_str": table})
 
@@ -321,6 +324,17 @@ def subsystem_rules(rep, prog, cfg):
     for lit, vs in by_lit.items():
         rep.check(len(vs) == 1 and table.get(vs[0]) == lit, rule, "%s/from_frame %s -> as_str" % (cfg, lit), pbody.loc(pbody.span),
                   "from_frame maps %r to %s whose protocol name is %r" % (lit, vs, [table.get(x) for x in vs]))
+    # the names are compared on the value the server sent, not on a normalised copy of it (which would fold distinct
+    # names onto one variant while the catch-all keeps the original spelling)
+    from .. import terms
+    transformed = {}
+    for c in tables.str_compares(pbody):
+        leaf, tr = terms.raw_source(pbody, c["other"])
+        if tr:
+            transformed[c["lit"]] = tr
+    rep.check(not transformed, rule, cfg + "/from_frame compares the received name", pbody.loc(pbody.span),
+              "the subsystem name is transformed before it is matched (%s): names that differ from the canonical spelling are decoded to the named variant, "
+              "whose protocol name is not what the server sent" % sorted({x for v in transformed.values() for x in v}))
     names = [table[v] for v in named if v in table]
     rep.check(len(set(names)) == len(names), rule, cfg + "/as_str names distinct", a.loc(a.span), "two variants share a name")
     param = 2 if pbody.kind == "Closure" else 1
